@@ -144,6 +144,16 @@ func suiteC04(c *ctx) {
 			cases = append(cases, rc)
 		}
 	}
+	// every two-piece split of the tail of streams whose output crosses the edge of the decoder's
+	// output window inside packed multi-symbol entries
+	for i := 0; i < c.n(6); i++ {
+		s := StreamSpec{Kind: "synth", Synth: &SynthSpec{Seed: r.U64(), Blocks: 3, Size: i % 2, Kinds: "E"}}
+		st, _, _, _ := s.Materialize()
+		for p := len(st) - 1; p > 0 && p > len(st)-56; p-- {
+			cases = append(cases, &RCase{Prop: "C04", ID: fmt.Sprintf("C04-e%d-%d", i, p), API: "flate", Stream: s, Cut: -1,
+				Src: SrcSpec{Kind: "bufio", Buf: 4096, Chunk: fmt.Sprintf("at%d", p), Term: "eof"}, Ctor: "new", Reads: "big", RSeed: r.U64()})
+		}
+	}
 	parallelJ(len(cases), func(i int) interface{} { return cases[i] }, func(i int) { checkC04(c.rep, c.pool, cases[i]) })
 }
 
